@@ -994,6 +994,9 @@ def _part_invariant(root, ctx, tier):
 # orientation step of preprocessing
 
 PRE_L, PRE_DT = 64, 0.01
+# how the caller spells the target: every real number type a target taken from a list, an np.arange or a file can have
+TARGET_TYPES = {"int": int, "float": float, "np.int64": np.int64, "np.int32": np.int32, "np.float32": np.float32,
+                "np.float64": np.float64, "array0d": lambda v: np.array(float(v))}
 
 
 def _pre_settings(method, orient, cfg):
@@ -1025,9 +1028,9 @@ def _part_preprocess(root, ctx, tier):
     atol = ATOL_REL * big * 10
     space = dict(target=list(ANGLES), method=["hvsr", "psd"], window=[None, 0.21],
                  detrend=["linear", "constant", "none"], corners=[[None, None], [5.0, None], [2.0, 20.0]],
-                 nrec=[1, 2])
+                 nrec=[1, 2], ttype=list(TARGET_TYPES))
     for cfg in product.deviations(space, 2 if tier == "quick" else None):
-        t, nrec = cfg["target"], cfg["nrec"]
+        t, nrec = TARGET_TYPES[cfg["ttype"]](cfg["target"]), cfg["nrec"]
         arrays = arrays0[:nrec]
         ctx.count("states")
         detail = dict(config=cfg, deployed=d, signals=list(names), L=PRE_L, dt=PRE_DT)
@@ -1047,9 +1050,12 @@ def _part_preprocess(root, ctx, tier):
                           explanation="preprocess raises with the orientation step but not without (or vice versa)")
             continue
         ctx.count("validated")
+        t = cfg["target"]
         cls = _angle_class(t - d)
         if cls in NONTRIVIAL:
             ctx.nontrivial_case(("preprocess", root["triple"], d, repr(cfg)))
+            if cfg["ttype"] not in ("int", "float"):
+                ctx.count("preprocess_numpy_typed_targets")
         ctx.outcome(("preprocess", cfg["method"], len(a_res[1]), cls, cfg["detrend"], repr(cfg["corners"])))
         wa, wb, wn = a_res[1], b_res[1], n_res[1]
         okay = len(wa) == len(wb)
@@ -1079,7 +1085,9 @@ def _part_preprocess(root, ctx, tier):
         if cfg["window"] is None and cfg["detrend"] == "none" and cfg["corners"] == [None, None]:
             for (ans, aew, avt, _), (ns0, ew0, vt0) in zip(wa, arrays):
                 rns, rew = RR.reorient(ns0, ew0, d, t)
-                if not (close(ans, rns, rtol=RTOL, atol=atol) and close(aew, rew, rtol=RTOL, atol=atol)
+                # a single-precision target is rotated with single-precision cos/sin: judged at that type's precision
+                rt, at = (1e-6, 1e-6 * big) if cfg["ttype"] == "np.float32" else (RTOL, atol)
+                if not (close(ans, rns, rtol=rt, atol=at) and close(aew, rew, rtol=rt, atol=at)
                         and bitwise_equal(avt, vt0)):
                     ctx.violation(f"C04:preprocess:{cfg['method']}:orientation-only:{cls}:reference-rotation", root,
                                   detail=detail, expected=dict(ns=rns.tolist(), ew=rew.tolist()),
@@ -1162,7 +1170,8 @@ def describe(tier):
              f"{dev} of {{configuration, deployed, target}} x 7 invariant method names (+ geometric mean as control"
              + ("" if quick else "; the four alias names within 2 deviations only") + "), re-oriented by hvsrpy (all "
              "records alike, and each record differently) and deployed by the reference geometry; "
-             f"preprocess: {dev} of {{target, hvsr/psd, window length, detrend, filter corners, 1-2 recordings}} x 8 "
+             f"preprocess: {dev} of {{target, hvsr/psd, window length, detrend, filter corners, 1-2 recordings, type of the target (int, float, "
+             "np.int64, np.int32, np.float32, np.float64, 0-d array)}} x 8 "
              "deployed orientations x 2 signal triples.  A case is non-trivial when the rotation involved is not a "
              "multiple of 90 degrees (orient/history/polarised/single/invariant/preprocess), every steps case, resp. "
              "per distinct (window, azimuth set, configuration) (azimuthal/rotdpp)",
